@@ -1,6 +1,7 @@
 package main
 
 import (
+	"strings"
 	"fmt"
 )
 
@@ -98,6 +99,10 @@ func c04StmtKinds(tpl exprTemplate, id int) map[string][]Stmt {
 	}
 	if _, isCall := tpl.e.(Call); !isCall {
 		if _, isCopy := tpl.e.(Copy); !isCopy {
+			// a bare expression whose value is not used: the parser accepts most forms (unlike Go); the
+			// accepted ones must still evaluate their operands once (cases of rejected forms are discarded)
+			out["exprstmt-bare"] = out["exprstmt"]
+			out["exprstmt-group"] = []Stmt{ExprStmt{Group{tpl.e}}}
 			delete(out, "exprstmt")
 		}
 	}
@@ -111,15 +116,16 @@ func c04Families(c *Check) []BashCase {
 		kinds := c04StmtKinds(tpl, ti)
 		for _, kn := range sortedStmtKeys(kinds) {
 			body := kinds[kn]
+			mr := strings.HasPrefix(kn, "exprstmt-")
 			// context: top level
-			cases = append(cases, BashCase{Key: fmt.Sprintf("E/%s/%s/top", tpl.name, kn), Prog: SingleFile(append(append(c04Prelude(), body...), final))})
+			cases = append(cases, BashCase{Key: fmt.Sprintf("E/%s/%s/top", tpl.name, kn), MayReject: mr, Prog: SingleFile(append(append(c04Prelude(), body...), final))})
 			// context: function body (statement) and return position
 			fbody := append([]Stmt{}, body...)
 			stm := append(c04Prelude(), fn("ctx", nil, nil, fbody...), callS("ctx"), callS("ctx"), final)
-			cases = append(cases, BashCase{Key: fmt.Sprintf("E/%s/%s/func", tpl.name, kn), Prog: SingleFile(stm)})
+			cases = append(cases, BashCase{Key: fmt.Sprintf("E/%s/%s/func", tpl.name, kn), MayReject: mr, Prog: SingleFile(stm)})
 			// context: loop body, two iterations (multiplicity per iteration)
 			stm = append(c04Prelude(), forUp("it", 2, body...), final)
-			cases = append(cases, BashCase{Key: fmt.Sprintf("E/%s/%s/loop", tpl.name, kn), Prog: SingleFile(stm)})
+			cases = append(cases, BashCase{Key: fmt.Sprintf("E/%s/%s/loop", tpl.name, kn), MayReject: mr, Prog: SingleFile(stm)})
 		}
 		// return position
 		stm := append(c04Prelude(), fn("ctx", nil, []Type{tpl.t}, ret(tpl.e)), pr(call("ctx")), def("keep", call("ctx")), pr(vr("keep")), final)
@@ -214,5 +220,5 @@ func checkC04(c *Check) {
 		oracleSelfCheck(c, cases, 300)
 	}
 	runProbes(c, bashProbeJudge)
-	runBashCases(c, cases)
+	runBashCases(c, withTight(cases, 4))
 }
